@@ -152,6 +152,8 @@ def run(repo: Repo, rep: Report, tier: str) -> None:
     _c13._slots(repo, Only(rep, {"R13.3"}), _corpus.explore_all(repo, tier))
     from ..core import helper_contracts as _hc
     _hc.report(repo, rep, "R10.9", _hc.get_config_contract(repo), "mashumaro.core.meta.code.builder::CodeBuilder.get_config")
+    from ..core import helper_contracts as _hc2
+    _hc2.report(repo, rep, "R09.6", _hc2.dataclass_fields_contract(repo), "mashumaro.core.meta.code.builder::CodeBuilder.dataclass_fields")
 
 def _r10_3(repo: Repo, rep: Report) -> None:
     seq: List[Tuple[str, List[str]]] = []
@@ -231,3 +233,6 @@ LEVEL_TEXT += _ADDENDUM
 _ADD2 = ' R10.9: contract of get_config (as R08.8).'
 EXPLANATION += _ADD2
 LEVEL_TEXT += _ADD2
+_ADD3 = " Borrowed: R09.6 (dataclass_fields: the nearest ancestor's Field wins; a bare re-annotation drops the inherited Field)."
+EXPLANATION += _ADD3
+LEVEL_TEXT += _ADD3
